@@ -122,6 +122,12 @@ type C12Registrar struct {
 	Exclusions []C12Excl      `json:"exclusions"`
 	PctMin     float64        `json:"pct_min"`
 	PctPrefix  float64        `json:"pct_prefix"`
+	// Build says how the RegProcessor is made: "" = struct literal filled the way the constructors
+	// fill it, "constructor" = through the exported constructor the registration server calls
+	// (NewRegProcessor for an authenticated registrar, NewRegProcessorNoAuth otherwise) on an
+	// ephemeral local port, after which only the ZMQ socket is swapped for the recording sender (and
+	// the selector / parameter override set / transports are installed as the server's main does).
+	Build string `json:"build,omitempty"`
 }
 
 // C12Params describes a transport_params Any.
@@ -441,6 +447,9 @@ func c12GenRegistrar(rt *rapid.T) C12Registrar {
 		ParamOvr: c12GenParamOvr(rt),
 		Enforce:  c12Chance(rt, "enforce", 5, 6),
 	}
+	if c12Chance(rt, "exported_constructor", 1, 4) {
+		r.Build = "constructor"
+	}
 	pcts := []float64{0, 100, 100, 100, 100, 100, 50, 50, 12.5, 99.9, 0.1, 150, -1}
 	r.PctMin = rapid.SampledFrom(pcts).Draw(rt, "pct_min")
 	r.PctPrefix = rapid.SampledFrom(pcts).Draw(rt, "pct_prefix")
@@ -655,6 +664,9 @@ func C12GenUsage(rt *rapid.T) C12UsageCase {
 		next++
 	}
 	r.Subnets = rapid.Permutation(r.Subnets).Draw(rt, "order")
+	if c12Chance(rt, "exported_constructor", 1, 3) {
+		r.Build = "constructor"
+	}
 	if rapid.Bool().Draw(rt, "unrelated_exclusion") {
 		t := rapid.SampledFrom([]string{"", "Min_Transport", "Prefix_Transport"}).Draw(rt, "unrelated_exclusion_label")
 		x := C12Excl{CIDR: "8.8.8.0/24"}
@@ -850,12 +862,21 @@ func C12RegConfigTOML(r C12Registrar) string {
 
 // C12Proc is a RegProcessor built from a C12Registrar together with what the oracle needs.
 type C12Proc struct {
-	RP     *RegProcessor
-	Sender *C12Sender
-	Pub    ed25519.PublicKey
-	ovr    []c12Net
-	excl   []c12ExNet
-	sel    *phantoms.PhantomIPSelector
+	closeFn func()
+	RP      *RegProcessor
+	Sender  *C12Sender
+	Pub     ed25519.PublicKey
+	ovr     []c12Net
+	excl    []c12ExNet
+	sel     *phantoms.PhantomIPSelector
+}
+
+// Close releases what an exported constructor allocated (real ZMQ socket, auth handler).
+func (pr *C12Proc) Close() {
+	if pr != nil && pr.closeFn != nil {
+		pr.closeFn()
+		pr.closeFn = nil
+	}
 }
 
 // C12NewProc builds the registrar the way NewRegProcessor / NewRegProcessorNoAuth do, with the
@@ -921,6 +942,42 @@ func C12NewProc(e *C12Env, r C12Registrar, sel *phantoms.PhantomIPSelector) (*C1
 	var regOverrides interfaces.Overrides
 	if len(ovr) > 0 {
 		regOverrides = interfaces.Overrides(ovr)
+	}
+	if r.Build == "constructor" {
+		// PHANTOM_SUBNET_LOCATION points at the environment's default file (set by C12NewEnv); the
+		// case's selector replaces the one the constructor loads from it.
+		var rp *RegProcessor
+		var err error
+		if r.Auth {
+			rp, err = NewRegProcessor("127.0.0.1", 0, priv, false, nil, e.Metrics, conf.EnforceSubnetOverrides, conf.OverrideSubnets, conf.ExclusionsFromOverride, conf.PrcntMinRegsToOverride, conf.PrcntPrefixRegsToOverride)
+		} else {
+			rp, err = NewRegProcessorNoAuth("127.0.0.1", 0, e.Metrics, conf.EnforceSubnetOverrides, conf.OverrideSubnets, conf.ExclusionsFromOverride, conf.PrcntMinRegsToOverride, conf.PrcntPrefixRegsToOverride)
+		}
+		if err != nil || rp == nil {
+			if r.Auth {
+				zmq.AuthStop()
+			}
+			return nil, fmt.Errorf("exported constructor (auth=%v) failed: %v", r.Auth, err)
+		}
+		real := rp.sock
+		auth := r.Auth
+		pr.closeFn = func() {
+			if auth {
+				zmq.AuthStop()
+			}
+			_ = real.Close()
+		}
+		rp.sock = pr.Sender
+		rp.ipSelector = sel
+		rp.regOverrides = regOverrides
+		for tt, t := range c12Transports(prefix.DefaultSet()) {
+			if err := rp.AddTransport(tt, t); err != nil {
+				pr.Close()
+				return nil, err
+			}
+		}
+		pr.RP = rp
+		return pr, nil
 	}
 	// --- from here on: the body of newRegProcessor / NewRegProcessorNoAuth -----------------------
 	pMin, pPre := validateOverridePercentages(conf.PrcntMinRegsToOverride, conf.PrcntPrefixRegsToOverride)
@@ -1244,6 +1301,10 @@ func C12Run(e *C12Env, c C12Case, entry C12Entry) (res C12Result) {
 	if err != nil {
 		res.Harness = "registrar configuration: " + err.Error()
 		return
+	}
+	defer pr.Close()
+	if c.Reg.Build == "constructor" {
+		res.class(fmt.Sprintf("built-by-exported-constructor:auth=%v", c.Reg.Auth))
 	}
 	clientBytes, err := C12ClientBytes(q)
 	if err != nil {
@@ -1705,6 +1766,10 @@ func C12RunUsage(e *C12Env, u C12UsageCase) (res C12Result, rows []C12UsageRow) 
 		res.Harness = "registrar configuration: " + err.Error()
 		return
 	}
+	defer pr.Close()
+	if u.Reg.Build == "constructor" {
+		res.class(fmt.Sprintf("built-by-exported-constructor:auth=%v", u.Reg.Auth))
+	}
 	for _, s := range u.Reg.Subnets {
 		rows = append(rows, C12UsageRow{Subnet: s})
 	}
@@ -1975,7 +2040,13 @@ func C12RunConc(e *C12Env, c C12ConcCase) (res C12Result) {
 		res.Harness = "registrar configuration: " + err.Error()
 		return
 	}
-	ref, err := C12NewProc(e, c.Reg, selReg)
+	defer pr.Close()
+	if c.Reg.Build == "constructor" {
+		res.class(fmt.Sprintf("built-by-exported-constructor:auth=%v", c.Reg.Auth))
+	}
+	refReg := c.Reg
+	refReg.Build = "" // one ZMQ auth handler at a time; the reference is compared on non-random fields only
+	ref, err := C12NewProc(e, refReg, selReg)
 	if err != nil {
 		res.Harness = "registrar configuration: " + err.Error()
 		return
